@@ -54,9 +54,34 @@ Definition is_grandfathered (r : result) : bool :=
 Definition is_structure (r : result) : bool :=
   match r_kind r with Structure _ => true | Content => false end.
 
-(* result.path().to_string_lossy().replace('\\', "/")  -- nothing else is normalised (D8) *)
+(* crate::output::path::path_key (fix D08): normalize_for_matching then backslash -> slash, the
+   empty result spelled "."; i.e. ONE leading "./" or ".\" is stripped, "." and the empty string
+   become ".", every backslash becomes a slash. Nothing else is normalised ("a/../b", "a//b",
+   a trailing slash stay).
+   Not modelled: (1) an absolute path below the current directory is first made relative (needs
+   the process cwd; the generators never produce absolute paths); (2) the code applies path_key
+   twice on some routes (once where the key is derived from the result path, once more inside
+   Baseline::contains / set_* / remove). path_key is not idempotent on paths that begin with two
+   dot-slash prefixes (././a gives ./a, then a), so the model, which applies it once, describes
+   the code on the domain [stable_key (norm_key p)] = every path without a second leading "./"
+   after the first is stripped. The theorems that feed a written baseline back into a run state
+   this hypothesis explicitly; the generators stay inside the domain. *)
 Definition norm_char (c : N) : N := if N.eqb c 92 then 47 else c.
-Definition norm_key (p : str) : key := map norm_char p.
+Definition strip_dot (p : str) : str :=
+  match p with
+  | a :: b :: rest => if N.eqb a 46 && (N.eqb b 47 || N.eqb b 92) then rest else p
+  | _ => p
+  end.
+Definition norm_key (p : str) : key :=
+  let s := strip_dot p in
+  match s with
+  | [] => [46]
+  | [c] => if N.eqb c 46 then [46] else map norm_char s
+  | _ => map norm_char s
+  end.
+(* a key that path_key leaves alone *)
+Definition stable_key (k : key) : Prop := norm_key k = k.
+Definition stable_keyb (k : key) : bool := str_eqb (norm_key k) k.
 Definition key_of (r : result) : key := norm_key (r_path r).
 
 Definition with_status (r : result) (s : status) : result :=
